@@ -207,6 +207,9 @@ func matchesPatterns(t *yang.YangType, s string) bool {
 }
 
 func (g *G) str(t *yang.YangType) (string, bool) {
+	if !g.forKey && g.R.Intn(24) == 0 && matchesPatterns(t, "") {
+		return "", true // the empty string is a value
+	}
 	for try := 0; try < 12; try++ {
 		s := g.Strs[g.R.Intn(len(g.Strs))]
 		if matchesPatterns(t, s) {
